@@ -23,6 +23,14 @@ CHECKS = {
             "Saml2Client and compares accept/reject with an independent truth table in both directions; the driver's "
             "event log must show a genuine successful verification for every signature present in an accepted cell.",
             TRUST, "3/C02"),
+    "C11": ("exploration", "hostile-document workload over introspected entry points with audit-hook, parser-construction and tool-log monitors",
+            "Feeds a catalogue of hostile documents (internal/external/parameter entities, billion laughs, external DTD, XInclude, stylesheet PI, "
+            "UTF-16/BOM, truncations, non-XML) to every *_from_string of every schema module, the generic constructors, the SOAP/pack readers, the "
+            "metadata loaders and the client/server parse functions in every binding. Monitors: sys.addaudithook (file/socket/urllib/subprocess), "
+            "wrappers on all stdlib parser entry points installed before the package is imported (every parser built inside the package must be the "
+            "defused one), canary text in results, and the xmlsec driver log. A syntactic inventory of parsing call sites measures reach; an "
+            "unreached site makes the run inconclusive.",
+            TRUST, "3/C11"),
     "C12": ("exploration", "generated instance trees for every schema class + independent structural comparator and independent parse",
             "For all ~1150 element classes of all schema modules generates instance trees from the class tables (every attribute and child, "
             "cardinalities 1..3, bounded depth, hostile text, foreign children/attributes), serialises, parses back with the library and "
